@@ -4,7 +4,7 @@ and the signature function that labels a failing case for known_findings.jsonl."
 PROPS = {
     'C19': {
         'families': [('c19', 20, 200)],
-        'rule': 'generated valid archives (CARv1; CARv2 with / without data padding, with either index codec, index-less; identity CIDs, repeated blocks, same hash under several codecs, long CIDs, roots among the blocks or not) fed to the BUILT car binary: index x {multihash-sorted, sorted, none} and --version 1, index create x codec, detach-index, list, get-block (present key, same hash under another codec, absent key), filter x {inverse} x --version {1,2} with random CID sets incl. absent CIDs, concat of 2-3 archives x --version {1,2}; every emitted archive is then judged by the binary\'s own inspect --full and verify; the model must predict every output byte for byte and both verdicts; S: the output computed from the block-list description (payload unchanged, index = regenerated index, selected blocks in source order, concatenated sequences under the first roots), inspect accepts, verify accepts iff the roots are among the blocks; distinct = distinct script text',
+        'rule': 'generated valid archives (CARv1; CARv2 with / without data padding, with either index codec, index-less; identity CIDs, repeated blocks, same hash under several codecs, long CIDs, roots among the blocks or not) fed to the BUILT car binary: index x {multihash-sorted, sorted, none} and --version 1, index create x codec, detach-index, list, get-block (present key, same hash under another codec, absent key), filter x {inverse} x --version {1,2} with random CID sets incl. absent CIDs, filter --append onto a first selection (and its refusals), get-dag x --version {1,2} x {strict, root given or taken from the archive} over random dag-cbor/raw DAGs packed shuffled, with strangers and sometimes a missing block (the load sequence of the engine recorded by an independent walk), concat of 2-3 archives x --version {1,2}; every output path absent / an older shorter file / an older longer file; every emitted archive is then judged by the binary\'s own inspect --full and verify; the model must predict every output byte for byte and both verdicts; S: the output computed from the block-list description (payload unchanged, index = regenerated index, selected blocks in source order, concatenated sequences under the first roots), inspect accepts, verify accepts iff the roots are among the blocks; distinct = distinct script text',
         'trusted': ['urfave/cli argument parsing', 'the process boundary (exit status, files) of the built binary'],
         'assumptions': ['inputs are valid archives without null padding (the quantifier of the property)', 'get-dag is not modelled (its traversal is the C15 engine; its writers are the C04/C05 store and the root-module SelectiveCar of C15)'],
     },
